@@ -90,6 +90,16 @@ impl<'a> UserModel<'a> {
         }
     }
 
+    /// Makes sure the selected sheet exists (after sheets have been removed)
+    pub(super) fn clamp_selected_sheet(&mut self) {
+        let sheet_count = self.model.workbook.worksheets.len() as u32;
+        for view in self.model.workbook.views.values_mut() {
+            if view.sheet >= sheet_count {
+                view.sheet = sheet_count.saturating_sub(1);
+            }
+        }
+    }
+
     /// Sets the the selected sheet
     pub fn set_selected_sheet(&mut self, sheet: u32) -> Result<(), String> {
         if self.model.workbook.worksheet(sheet).is_err() {
